@@ -79,6 +79,23 @@ def run(c):
             for inner in (inners if thorough else rng.sample(inners, 12)):
                 for fixed in ((0x01, 0x11, 0x05, 0x0F) if "Transport" in t["name"] else (0x00, 0x01)):
                     cases.append(dict(k="dec", entry="plain", inp=with_container(t["name"], sname, inner, fixed)))
+    # the instances of every other message of the family under this message's type octet (contents filled with this message's
+    # own identifiers), and every message behind octets that look like a framing header
+    for t in TABLES:
+        if t["family"] == "ENV": continue
+        for v in retyped_inputs(t["name"], thorough):
+            cases.append(dict(k="dec", entry="plain", inp=v))
+        for v in enveloped_inputs(plain_minimal(t["name"])):
+            cases.append(dict(k="dec", entry="plain", inp=v))
+    byname = {}
+    for name, b in samples(3000):
+        if len(b) > 3: byname[name] = b
+    for name, b in sorted(byname.items()):
+        pos = 2 if b[0] == 0x7E else 3
+        for t in TABLES:
+            if t["family"] == "ENV" or (t["family"] == "GMM") != (b[0] == 0x7E): continue
+            if thorough or rng.random() < 0.35:
+                cases.append(dict(k="dec", entry="plain", inp=b[:pos] + [t["msgtype"]] + b[pos + 1:]))
     # a receiving message that is not fresh: the OTHER family decoded into it before, or its SecurityHeader view filled in by
     # the caller - routing still follows the octets of the new input (accept / reject and routed body judged, event DecX)
     fams_ = sorted(byfam)
